@@ -62,6 +62,16 @@ def run_case(c):
         out["get_index_array"] = [int(x) for x in np.asarray(fr.get_index(np.array([fh(f) for f in c["freqs"]])))]
     except Exception as ex:
         out["get_index_array"] = "raised %s" % type(ex).__name__
+    # ts_ext is the frame's time axis plus one further step, whatever origin that axis currently has (a cadence shifts it)
+    ts_keep = fr.ts
+    ok_ext = True
+    for off in (0.0, 123.5, fr.tchans * fr.dt * 3):
+        fr.ts = ts_keep + off
+        ext = np.asarray(fr.ts_ext)
+        if ext.shape != (T + 1,) or not np.array_equal(ext[:-1], fr.ts) or abs(ext[-1] - (fr.ts[-1] + fr.dt)) > 1e-9 * max(1.0, abs(ext[-1])):
+            ok_ext = False
+    fr.ts = ts_keep
+    out["ts_ext_follows_ts"] = ok_ext
     out["drift_rate"] = hx(fr.get_drift_rate(pj[0], pj[-1])) if pj else None
     # whole-axis facts
     out["increasing"] = bool(np.all(np.diff(fr.fs) > 0)) if F > 1 else True
